@@ -128,6 +128,30 @@ class Registry:
     def ws_classes(self):
         return [ws_class(w) for w in self.ws_objs]
 
+    PROBES = ["", "x", " ", "1", "'", "(", "a b", "-", "a-b", "1e3", ",", "''", '"', "`", "[", "@", ".", "*"]
+
+    def term_nullable(self):
+        """per terminal: may it match the empty string?  Probed with the real objects on a few texts at every position; 'no' is a premise of
+        C14_engine_total that is re-validated on every query the twin logs (Model.premise_bad)"""
+        if getattr(self, "_nlt", None) is None or len(self._nlt) != len(self.term_objs):
+            out = []
+            for obj in self.term_objs:
+                nul = False
+                for s in self.PROBES:
+                    for p in range(len(s) + 1):
+                        try:
+                            r = term_at(obj, s, p)
+                        except Exception:
+                            r = p
+                        if r is not None and r == p:
+                            nul = True
+                            break
+                    if nul:
+                        break
+                out.append(nul)
+            self._nlt = out
+        return self._nlt
+
     def dead_terms(self):
         return sorted(t for t, x in enumerate(self.term_objs) if not isinstance(x, re.Pattern) and (first_literal(x) or " ") in SENSITIVE)
 
@@ -224,6 +248,78 @@ class Table:
             s = "NAll %d [%s]" % (n["ws"], "; ".join("(%d, (%d, %d))" % (c, mi, ma) for c, mi, ma in zip(n["kids"], n["mins"], n["maxs"])))
         return "%s (%s)" % ({"none": "e0", "always": "eA", "nonempty": "eN", "nodash": "eD"}[n["veto"]], s)
 
+    def certificate(self):
+        """(NL, NLR, RK): NL / NLR over-approximate "node i can match the empty string" when called with / without its own parse action (closed under the rules of Proofs/PegNull.v: entry_nl_ok),
+        RK ranks the nodes so that every call a node can make at its own start position goes to a node of smaller rank (Proofs/PegFuel.v: node_rk_ok).
+        Raises when the same-position call graph has a cycle (left recursion): no certificate exists then.  Coq re-checks the certificate (cert_ok)."""
+        nlt = self.reg.term_nullable()
+        N = self.nodes
+        NL = [False] * len(N)          # called with the node's parse action in force
+        NLR = [False] * len(N)         # called raw (Combine calls its child's parse_impl)
+
+        def struct(i):
+            n = N[i]
+            k, kids = n["kind"], n.get("kids", [])
+            if k == "term":
+                return nlt[n["t"]]
+            if k == "seq":
+                return all(NL[c] for c in kids)
+            if k in ("alt", "or"):
+                return any(NL[c] for c in kids)
+            if k in ("opt", "not", "look", "all"):
+                return True
+            if k == "many":
+                return n["min"] == 0 or bool(n["zero"])
+            if k == "raw":
+                return NLR[kids[0]]
+            return NL[kids[0]]
+
+        changed = True
+        while changed:
+            changed = False
+            for i, n in enumerate(N):
+                if NL[i] and NLR[i]:
+                    continue
+                if struct(i):
+                    if not NLR[i]:
+                        NLR[i] = changed = True
+                    if n["veto"] != "nonempty" and not NL[i]:
+                        NL[i] = changed = True
+        edges = []
+        for i, n in enumerate(N):
+            k, kids = n["kind"], n.get("kids", [])
+            if k == "seq":
+                e = []
+                for c in kids:
+                    e.append(c)
+                    if not NL[c]:
+                        break
+                edges.append(e)
+            else:
+                edges.append([] if k == "term" else list(kids))
+        RK = [None] * len(N)
+        state = [0] * len(N)
+        for root in range(len(N)):
+            if state[root]:
+                continue
+            stack = [(root, 0)]
+            state[root] = 1
+            while stack:
+                i, j = stack[-1]
+                if j < len(edges[i]):
+                    stack[-1] = (i, j + 1)
+                    c = edges[i][j]
+                    if state[c] == 1:
+                        raise ValueError("same-position call cycle through nodes %d -> %d (%s)" % (i, c, N[c].get("name")))
+                    if state[c] == 0:
+                        state[c] = 1
+                        stack.append((c, 0))
+                else:
+                    RK[i] = 1 + max([RK[c] for c in edges[i]], default=-1)
+                    state[i] = 2
+                    stack.pop()
+        return NL, NLR, RK
+
     def coq(self, name):
         return "Definition %s : table := [\n %s\n]." % (name, ";\n ".join(self.coq_node(i) for i in range(len(self.nodes))))
 
@@ -243,16 +339,26 @@ class Model:
         self.log = set()
         self.sites = {}       # (w, pos) -> nodes that asked for that skip
         self.cur = None
+        self.premise_bad = []     # answers of the real objects that break oracle_ok (Proofs/PegCert.v)
 
     # --- oracle
     def QS(self, w, pos):
         self.log.add(("S", w, pos))
         self.sites.setdefault((w, pos), set()).add(self.cur)
-        return self.reg.ws_objs[self.ws_override.get(w, w)].skip(self.s, pos)
+        r = self.reg.ws_objs[self.ws_override.get(w, w)].skip(self.s, pos)
+        if not (pos <= r <= len(self.s)):
+            self.premise_bad.append(("skip outside [pos, len]", w, pos, r))
+        return r
 
     def QT(self, t, pos):
         self.log.add(("T", t, pos))
-        return term_at(self.reg.term_objs[t], self.s, pos)
+        r = term_at(self.reg.term_objs[t], self.s, pos)
+        if r is not None:
+            if not (pos <= r <= len(self.s)):
+                self.premise_bad.append(("terminal match outside [pos, len]", t, pos, r))
+            elif r == pos and not self.reg.term_nullable()[t]:
+                self.premise_bad.append(("terminal marked non-empty matched the empty string", t, pos, r))
+        return r
 
     def QD(self, a, b):
         self.log.add(("D", a, b))
